@@ -1682,6 +1682,40 @@ class SimFile:
     def __next__(self):
         return next(self._ensure())
 
+    # the rest of the buffered-reader surface, so that a harmless
+    # refactoring of how psutil reads a file is not mistaken for a defect
+    def readinto(self, b):
+        if not self.binary:
+            raise io.UnsupportedOperation("readinto on a text file")
+        return self._ensure().readinto(b)
+
+    readinto1 = readinto
+
+    def read1(self, n=-1):
+        return self._ensure().read(n)
+
+    def peek(self, n=0):
+        f = self._ensure()
+        pos = f.tell()
+        data = f.read()
+        f.seek(pos)
+        return data
+
+    def seek(self, *a):
+        return self._ensure().seek(*a)
+
+    def tell(self):
+        return self._ensure().tell()
+
+    def readable(self):
+        return True
+
+    def writable(self):
+        return False
+
+    def seekable(self):
+        return True
+
     def close(self):
         self.closed = True
 
